@@ -272,6 +272,13 @@ impl Drop for SharedUdpRegistration {
     }
 }
 
+/// Forget every shared port (simulated runs sharing a worker process must not
+/// inherit one another's sockets if a run ended without releasing them).
+#[cfg(rustrtc_verif)]
+pub fn verif_reset_registry() {
+    registry().lock().clear();
+}
+
 /// Bind or join the shared UDP socket at `bind_addr` and register `local_ufrag`.
 ///
 /// Returns the bound local address, a send/receive [`SharedUdpHandle`], and an
